@@ -55,6 +55,9 @@ type geoState struct {
 	Fit     []uint32 `json:"fit"`
 	Add     []uint32 `json:"add"`
 	Spans   [][4]int `json:"spans"`
+	OSpans  [][4]int `json:"ospans"` // the same region with overlapping spans
+	Blocks  [][3]int `json:"blocks"` // blocks of the region
+	ZR      []int    `json:"zr"`     // Z extent of the region in blocks (empty: no block)
 	Members [][3]int `json:"members"`
 }
 
@@ -99,7 +102,7 @@ func (g *geoCfg) module() (mod, cfg string) {
 	if g.EmitRoi {
 		roi = "TRUE"
 	}
-	cfg = fmt.Sprintf("SPECIFICATION Spec\nCONSTANTS\n XMin <- XMinDef\n XMax <- XMaxDef\n Rows <- RowsDef\n BlockSizes <- BlockSizesDef\n Bounds <- BoundsDef\n NMasks = %d\n RoiBlock <- RoiBlockDef\n Query <- QueryDef\n EmitRoi = %s\nINVARIANTS TypeOK Inv_C18_Normalize Inv_C18_Partition Inv_C18_Split Inv_C18_Fit Inv_C18_Roi Emit EmitOperands\nCHECK_DEADLOCK FALSE\n", g.NMasks, roi)
+	cfg = fmt.Sprintf("SPECIFICATION Spec\nCONSTANTS\n XMin <- XMinDef\n XMax <- XMaxDef\n Rows <- RowsDef\n BlockSizes <- BlockSizesDef\n Bounds <- BoundsDef\n NMasks = %d\n RoiBlock <- RoiBlockDef\n Query <- QueryDef\n EmitRoi = %s\nINVARIANTS TypeOK Inv_C18_Normalize Inv_C18_Partition Inv_C18_Split Inv_C18_Fit Inv_C18_Roi Inv_C18_RoiOverlap Inv_C18_PartitionDesign Emit EmitOperands\nCHECK_DEADLOCK FALSE\n", g.NMasks, roi)
 	return sb.String(), cfg
 }
 
@@ -370,6 +373,44 @@ type roiSess struct {
 	inst map[string]bool
 }
 
+// roiSubvol is one subvolume of a GET partition answer.
+type roiSubvol struct {
+	MinPoint, MaxPoint [3]int
+	MinChunk, MaxChunk [3]int
+	TotalBlocks        int64
+	ActiveBlocks       int64
+}
+
+// roiPartCase is one partition answer of the real code, to be judged by TLC
+// (specs/GeometryPartition_cases.tla).
+type roiPartCase struct {
+	Config    string      `json:"config"`
+	BS        [3]int      `json:"roi_block_size"`
+	Spans     [][4]int    `json:"posted_spans_zyx0x1"`
+	Blocks    [][3]int    `json:"region_blocks"`
+	Batch     int         `json:"batchsize"`
+	Optimized bool        `json:"optimized"`
+	Overlap   bool        `json:"overlapping_spans"`
+	URL       string      `json:"request"`
+	Subvols   []roiSubvol `json:"subvolumes"`
+	NActive   int64       `json:"NumActiveBlocks"`
+	NTotal    int64       `json:"NumTotalBlocks"`
+	NSub      int         `json:"NumSubvolumes"`
+}
+
+type roiPartSink struct {
+	mu    sync.Mutex
+	all    bool // both partition modes for every batch size (thorough), else alternating
+	cases  []*roiPartCase
+	failed int // partition requests that did not return a partition
+}
+
+func (k *roiPartSink) add(c *roiPartCase) {
+	k.mu.Lock()
+	k.cases = append(k.cases, c)
+	k.mu.Unlock()
+}
+
 func newRoiSess(c *Ctx) *roiSess {
 	n := c.StartNode(node.Config{})
 	r, err := n.HTTP("POST", "/api/repos", []byte(`{"alias":"c18","description":"roi"}`))
@@ -399,7 +440,7 @@ func (s *roiSess) instance(g *geoCfg) string {
 }
 
 // replayRoi stores the spans of one state in an roi instance and compares every query.
-func replayRoi(run *ev.Run, s *roiSess, g *geoCfg, st *geoState, rng *rand.Rand, nOps *int64) {
+func replayRoi(run *ev.Run, s *roiSess, g *geoCfg, st *geoState, empty *geoState, idx int, sink *roiPartSink, rng *rand.Rand, nOps *int64) {
 	name := s.instance(g)
 	base := "/api/node/" + s.uuid + "/" + name
 	report := func(op string, operand, want, got interface{}) {
@@ -535,6 +576,287 @@ func replayRoi(run *ev.Run, s *roiSess, g *geoCfg, st *geoState, rng *rand.Rand,
 			report("roi.VoxelBoundsInside", b, want, inside[k])
 		}
 	}
+	// --- the Z extent the instance advertises (info: MinZ, MaxZ) is that of the posted spans
+	if len(st.ZR) == 2 {
+		r, err = s.n.HTTP("GET", base+"/info", nil)
+		must(err, "GET roi info")
+		var info struct{ Extended struct{ MinZ, MaxZ int } }
+		run.Eval(key("zrange"))
+		atomic.AddInt64(nOps, 1)
+		if r.Status != 200 || json.Unmarshal(r.Bytes(), &info) != nil || info.Extended.MinZ != st.ZR[0] || info.Extended.MaxZ != st.ZR[1] {
+			report("GET info MinZ/MaxZ", nil, st.ZR, fmt.Sprintf("%d %.300s", r.Status, r.Bytes()))
+		}
+	}
+	// --- partition: the answers are collected and judged by TLC (GeometryPartition_cases)
+	partition := func(overlap bool, batch int, optimized bool) {
+		url := fmt.Sprintf("%s/partition?batchsize=%d", base, batch)
+		if optimized {
+			url += "&optimized=true"
+		}
+		r, err := s.n.HTTP("GET", url, nil)
+		must(err, "GET partition")
+		atomic.AddInt64(nOps, 1)
+		var ans struct {
+			NumTotalBlocks, NumActiveBlocks int64
+			NumSubvolumes                   int
+			Subvolumes                      []roiSubvol
+		}
+		if r.Status != 200 || json.Unmarshal(r.Bytes(), &ans) != nil {
+			op := "GET partition"
+			if optimized {
+				op += " optimized"
+			}
+			sink.mu.Lock()
+			sink.failed++
+			nf := sink.failed
+			sink.mu.Unlock()
+			if id := "roi-partition-request-fails"; run.KnownActive(id) {
+				run.ReportKnown(id)
+			} else if nf <= 6 { // a few replay files are enough, the verdict is a violation already
+				report(op, map[string]interface{}{"url": url, "overlapping_spans": overlap}, "200 with a JSON partition", fmt.Sprintf("%d %.400s", r.Status, r.Bytes()))
+			}
+			return
+		}
+		pc := &roiPartCase{Config: g.Name, BS: g.RoiBlock, Spans: st.Spans, Blocks: st.Blocks, Batch: batch, Optimized: optimized, Overlap: overlap, URL: url,
+			Subvols: ans.Subvolumes, NActive: ans.NumActiveBlocks, NTotal: ans.NumTotalBlocks, NSub: ans.NumSubvolumes}
+		if overlap {
+			pc.Spans = st.OSpans
+		}
+		sink.add(pc)
+	}
+	if len(st.Spans) > 0 {
+		for batch := 1; batch <= 3; batch++ {
+			run.Eval(key(fmt.Sprintf("partition%d", batch)))
+			if sink.all || (idx+batch)%2 == 0 {
+				partition(false, batch, false)
+			}
+			if sink.all || (idx+batch)%2 == 1 {
+				partition(false, batch, true)
+			}
+		}
+	}
+	// --- the same region posted with overlapping spans answers every query the same way
+	if len(st.OSpans) > len(st.Spans) {
+		ospans := append([][4]int(nil), st.OSpans...)
+		rng.Shuffle(len(ospans), func(i, j int) { ospans[i], ospans[j] = ospans[j], ospans[i] })
+		body, _ = json.Marshal(ospans)
+		r, err = s.n.HTTP("POST", base+"/roi", body)
+		must(err, "POST roi")
+		if r.Status != 200 {
+			report("POST roi (overlapping spans)", ospans, 200, fmt.Sprintf("%d %s", r.Status, r.Bytes()))
+			return
+		}
+		body, _ = json.Marshal(pts)
+		r, err = s.n.HTTP("POST", base+"/ptquery", body)
+		must(err, "POST ptquery")
+		run.Eval(key("ptquery-overlap"))
+		atomic.AddInt64(nOps, 1)
+		var in []bool
+		if r.Status != 200 || json.Unmarshal(r.Bytes(), &in) != nil || len(in) != len(pts) {
+			report("POST ptquery (overlapping spans)", ospans, "one answer per point", fmt.Sprintf("%d %s", r.Status, r.Bytes()))
+		} else {
+			var wrong [][3]int
+			for i, p := range pts {
+				if in[i] != member[p] {
+					wrong = append(wrong, p)
+				}
+			}
+			if len(wrong) > 0 {
+				report("POST ptquery (overlapping spans)", ospans, map[string]interface{}{"members": st.Members}, map[string]interface{}{"points_answered_wrongly": wrong})
+			}
+		}
+		for _, b := range boxes[:2] {
+			sx, sy, sz := b[1]-b[0]+1, b[3]-b[2]+1, b[5]-b[4]+1
+			url := fmt.Sprintf("%s/mask/0_1_2/%d_%d_%d/%d_%d_%d", base, sx, sy, sz, b[0], b[2], b[4])
+			r, err = s.n.HTTP("GET", url, nil)
+			must(err, "GET mask")
+			run.Eval(key(fmt.Sprintf("mask-overlap%v", b)))
+			atomic.AddInt64(nOps, 1)
+			data := r.Bytes()
+			if r.Status != 200 || len(data) != sx*sy*sz {
+				report("GET mask (overlapping spans)", b, fmt.Sprintf("%d bytes", sx*sy*sz), fmt.Sprintf("%d, %d bytes: %.200s", r.Status, len(data), data))
+				continue
+			}
+			var wrong [][3]int
+			i := 0
+			for z := b[4]; z <= b[5]; z++ {
+				for y := b[2]; y <= b[3]; y++ {
+					for x := b[0]; x <= b[1]; x++ {
+						if (data[i] != 0) != member[[3]int{x, y, z}] {
+							wrong = append(wrong, [3]int{x, y, z})
+						}
+						i++
+					}
+				}
+			}
+			if len(wrong) > 0 {
+				report("GET mask (overlapping spans)", map[string]interface{}{"box_x0x1y0y1z0z1": b, "url": url, "spans": ospans}, map[string]interface{}{"members": st.Members}, map[string]interface{}{"voxels_answered_wrongly": wrong})
+			}
+		}
+		var oin []int
+		must(s.n.Call("geom.roiinside", map[string]interface{}{"spans": st.OSpans, "block_size": g.RoiBlock, "boxes": boxes}, &oin), "geom.roiinside")
+		for k := range boxes {
+			atomic.AddInt64(nOps, 1)
+			if oin[k] != inside[k] {
+				report("roi.VoxelBoundsInside (overlapping spans)", boxes[k], inside[k], oin[k])
+			}
+		}
+		run.Eval(key("partition-overlap"))
+		partition(true, 1+idx%3, idx%2 == 0)
+	}
+	// --- DELETE roi: the region is empty afterwards (the expectations of the empty state)
+	if idx%4 == 0 && empty != nil && len(st.Spans) > 0 {
+		r, err = s.n.HTTP("DELETE", base+"/roi", nil)
+		must(err, "DELETE roi")
+		run.Eval(key("delete"))
+		atomic.AddInt64(nOps, 1)
+		if r.Status != 200 {
+			report("DELETE roi", nil, 200, fmt.Sprintf("%d %s", r.Status, r.Bytes()))
+			return
+		}
+		r, err = s.n.HTTP("GET", base+"/roi", nil)
+		must(err, "GET roi")
+		var got [][4]int
+		if r.Status != 200 || json.Unmarshal(r.Bytes(), &got) != nil || len(got) != len(empty.Spans) {
+			report("GET roi after DELETE roi", nil, empty.Spans, fmt.Sprintf("%d %.300s", r.Status, r.Bytes()))
+		}
+		body, _ = json.Marshal(pts)
+		r, err = s.n.HTTP("POST", base+"/ptquery", body)
+		must(err, "POST ptquery")
+		atomic.AddInt64(nOps, 1)
+		var in []bool
+		emptyMember := map[[3]int]bool{}
+		for _, m := range empty.Members {
+			emptyMember[m] = true
+		}
+		if r.Status != 200 || json.Unmarshal(r.Bytes(), &in) != nil || len(in) != len(pts) {
+			report("POST ptquery after DELETE roi", nil, "one answer per point", fmt.Sprintf("%d %s", r.Status, r.Bytes()))
+		} else {
+			for i, p := range pts {
+				if in[i] != emptyMember[p] {
+					report("POST ptquery after DELETE roi", nil, map[string]interface{}{"members": empty.Members}, map[string]interface{}{"point": p, "answer": in[i]})
+					break
+				}
+			}
+		}
+		b := boxes[0]
+		sx, sy, sz := b[1]-b[0]+1, b[3]-b[2]+1, b[5]-b[4]+1
+		url := fmt.Sprintf("%s/mask/0_1_2/%d_%d_%d/%d_%d_%d", base, sx, sy, sz, b[0], b[2], b[4])
+		r, err = s.n.HTTP("GET", url, nil)
+		must(err, "GET mask")
+		atomic.AddInt64(nOps, 1)
+		if r.Status != 200 || len(r.Bytes()) != sx*sy*sz || bytes.IndexFunc(r.Bytes(), func(c rune) bool { return c != 0 }) >= 0 && len(empty.Members) == 0 {
+			report("GET mask after DELETE roi", url, "all zero", fmt.Sprintf("%d, %d bytes", r.Status, len(r.Bytes())))
+		}
+	}
+}
+
+// judgePartitions lets TLC evaluate the partition claims of specs/GeometryPartition.tla on the
+// answers of the real code and reports every answer that breaks one.
+func judgePartitions(c *Ctx, run *ev.Run, cfgByName map[string]*geoCfg, cases []*roiPartCase) (states, trans int64, bad map[string]int) {
+	bad = map[string]int{}
+	if len(cases) == 0 {
+		return
+	}
+	sort.Slice(cases, func(i, j int) bool {
+		a, b := cases[i], cases[j]
+		ka := fmt.Sprint(a.Config, a.Spans, a.Batch, a.Optimized, a.Overlap)
+		kb := fmt.Sprint(b.Config, b.Spans, b.Batch, b.Optimized, b.Overlap)
+		return ka < kb
+	})
+	t3 := func(a [3]int) string { return fmt.Sprintf("<<%d, %d, %d>>", a[0], a[1], a[2]) }
+	const chunk = 2500
+	nchunks := (len(cases) + chunk - 1) / chunk
+	verdicts := make([][]map[string]bool, nchunks)
+	var smu sync.Mutex
+	// TLC judges the chunks, three at a time
+	parallel(nchunks, 3, func(_, ci int) {
+		lo := ci * chunk
+		hi := lo + chunk
+		if hi > len(cases) {
+			hi = len(cases)
+		}
+		var sb strings.Builder
+		sb.WriteString("---- MODULE GeometryPartCases ----\nEXTENDS Integers\nCases == <<\n")
+		for i, pc := range cases[lo:hi] {
+			if i > 0 {
+				sb.WriteString(",\n")
+			}
+			var bl, sv []string
+			for _, b := range pc.Blocks {
+				bl = append(bl, t3(b))
+			}
+			for _, v := range pc.Subvols {
+				sv = append(sv, fmt.Sprintf("[lo |-> %s, hi |-> %s, active |-> %d, total |-> %d, vlo |-> %s, vhi |-> %s]", t3(v.MinChunk), t3(v.MaxChunk), v.ActiveBlocks, v.TotalBlocks, t3(v.MinPoint), t3(v.MaxPoint)))
+			}
+			fmt.Fprintf(&sb, "[blocks |-> {%s}, bs |-> %s, subvols |-> << %s >>, nactive |-> %d, ntotal |-> %d]", strings.Join(bl, ", "), t3(pc.BS), strings.Join(sv, ", "), pc.NActive, pc.NTotal)
+		}
+		sb.WriteString("\n>>\n====\n")
+		cfg := "SPECIFICATION Spec\nINVARIANTS EmitVerdicts\nCHECK_DEADLOCK FALSE\n"
+		r := c.MustModelCheck(tlc.Opts{Module: "GeometryPartition_cases", Config: "part.cfg", Workers: 1, Xss: "256m", HeapGB: 3, Timeout: 15 * time.Minute,
+			Files: map[string][]byte{"GeometryPartCases.tla": []byte(sb.String()), "part.cfg": []byte(cfg)}})
+		var out struct {
+			Verdicts []map[string]bool `json:"verdicts"`
+		}
+		got := false
+		PrintedJSON(r.Output, func(raw []byte) {
+			if json.Unmarshal(raw, &out) == nil && len(out.Verdicts) == hi-lo {
+				got = true
+			}
+		})
+		if !got {
+			infra("GeometryPartition_cases printed nothing usable: %s", r.Tail(1500))
+		}
+		smu.Lock()
+		states += r.Distinct
+		trans += r.Generated
+		verdicts[ci] = out.Verdicts
+		smu.Unlock()
+	})
+	for ci := range verdicts {
+		lo := ci * chunk
+		for i, v := range verdicts[ci] {
+			pc := cases[lo+i]
+			var failed []string
+			for claim, ok := range v {
+				if !ok {
+					failed = append(failed, claim)
+				}
+			}
+			if pc.NSub != len(pc.Subvols) {
+				failed = append(failed, "NumSubvolumes")
+			}
+			if len(failed) == 0 {
+				continue
+			}
+			sort.Strings(failed)
+			kind := "default"
+			if pc.Optimized {
+				kind = "optimized"
+			}
+			if pc.Overlap {
+				kind += "+overlapping-spans"
+			}
+			bad[kind+": "+strings.Join(failed, ",")]++
+			id := "roi-partition-skips-empty-layers"
+			if pc.Overlap {
+				id = "roi-partition-overlapping-spans"
+			} else if pc.Optimized {
+				id = "roi-partition-request-fails"
+			}
+			if run.KnownActive(id) {
+				run.ReportKnown(id)
+				continue
+			}
+			if bad[kind+": "+strings.Join(failed, ",")] > 3 || run.Violations() >= 60 {
+				continue // enough replay files of this kind
+			}
+			run.Violation("c18", c18Divergence{Part: "roi-partition", Config: cfgByName[pc.Config], Op: "GET " + pc.URL, Input: pc.Spans,
+				Expected: map[string]interface{}{"claims_of_GeometryPartition_that_do_not_hold": failed, "region_blocks": pc.Blocks},
+				Observed: pc})
+		}
+	}
+	return
 }
 
 // ---------------------------------------------------------------------------
@@ -795,6 +1117,8 @@ func c18Configs(c *Ctx) []*geoCfg {
 		mk("rows2x4", -2, 1, [][2]int{{-1, 0}, {0, 0}}, false, [3]int{2, 2, 2}),
 		mk("roi2x4", -2, 1, [][2]int{{-1, -1}, {0, 0}}, true, [3]int{2, 2, 2}),
 		mk("roirow5", -3, 1, [][2]int{{-1, -1}}, true, [3]int{3, 2, 2}),
+		// three rows in three Z layers with a gap in Z (partition into layers)
+		mk("roi3z", -1, 0, [][2]int{{0, -2}, {0, 0}, {1, 1}}, true, [3]int{2, 3, 2}),
 	}
 	if c.thorough() {
 		cfgs = append(cfgs,
@@ -804,6 +1128,7 @@ func c18Configs(c *Ctx) []*geoCfg {
 			mk("row10", -5, 4, [][2]int{{0, -1}}, false, [3]int{2, 2, 2}),
 			mk("roi2x5", -2, 2, [][2]int{{-1, 0}, {0, 0}}, true, [3]int{2, 3, 2}),
 			mk("roi3x3", -1, 1, [][2]int{{-1, -1}, {0, -1}, {0, 0}}, true, [3]int{3, 2, 2}),
+			mk("roi3z3", -1, 1, [][2]int{{0, -2}, {1, 0}, {0, 1}}, true, [3]int{2, 2, 3}),
 		)
 	}
 	return cfgs
@@ -830,11 +1155,41 @@ func checkC18(c *Ctx) int {
 	var nOps, nStates int64
 	var mu sync.Mutex
 	perCfg := map[string]interface{}{}
+	sink := &roiPartSink{all: c.thorough()}
+	cfgByName := map[string]*geoCfg{}
+	// TLC explores the configurations side by side (quick: all at once; thorough: 3 at a time)
+	type tlcOut struct {
+		r   *tlc.Result
+		err interface{}
+		s   float64
+	}
+	results := make([]chan tlcOut, len(cfgs))
+	sem := make(chan bool, c.pick(len(cfgs), 3))
 	for ci, g := range cfgs {
-		mod, cfg := g.module()
+		cfgByName[g.Name] = g
+		results[ci] = make(chan tlcOut, 1)
+		go func(ci int, g *geoCfg) {
+			sem <- true
+			defer func() { <-sem }()
+			tt := time.Now()
+			var o tlcOut
+			defer func() {
+				o.err = recover()
+				o.s = since(tt)
+				results[ci] <- o
+			}()
+			mod, cfg := g.module()
+			o.r = c.MustModelCheck(tlc.Opts{Module: "GeometryMC", Config: "geo.cfg", Workers: c.pick(4, 8), Timeout: 20 * time.Minute, HeapGB: 4,
+				Files: map[string][]byte{"GeometryMC.tla": []byte(mod), "geo.cfg": []byte(cfg)}})
+		}(ci, g)
+	}
+	for ci, g := range cfgs {
 		tt := time.Now()
-		r := c.MustModelCheck(tlc.Opts{Module: "GeometryMC", Config: "geo.cfg", Workers: 8, Timeout: 20 * time.Minute, HeapGB: 8,
-			Files: map[string][]byte{"GeometryMC.tla": []byte(mod), "geo.cfg": []byte(cfg)}})
+		o := <-results[ci]
+		if o.err != nil {
+			panic(o.err)
+		}
+		r := o.r
 		states += r.Distinct
 		trans += r.Generated
 		var sts []*geoState
@@ -857,9 +1212,15 @@ func checkC18(c *Ctx) int {
 		if int64(len(sts)) != r.Distinct || len(operands) != g.NMasks {
 			infra("Geometry/%s: %d printed states for %d distinct states, %d operands: %s", g.Name, len(sts), r.Distinct, len(operands), r.Tail(1500))
 		}
-		tTLC := since(tt)
+		tTLC := o.s
 		// deterministic order of the states regardless of TLC's worker scheduling
 		sort.Slice(sts, func(i, j int) bool { return fmt.Sprint(sts[i].Runs) < fmt.Sprint(sts[j].Runs) })
+		var empty *geoState
+		for _, st := range sts {
+			if len(st.Runs) == 0 {
+				empty = st
+			}
+		}
 		const batch = 250
 		nb := (len(sts) + batch - 1) / batch
 		parallel(nb, workers, func(w, b int) {
@@ -870,8 +1231,8 @@ func checkC18(c *Ctx) int {
 			rng := rand.New(rand.NewSource(c.Seed*7919 + int64(ci)*1000003 + int64(b)))
 			replayRuns(run, nodes[w], g, sts[lo:hi], operands, rng, &nOps)
 			if g.EmitRoi {
-				for _, st := range sts[lo:hi] {
-					replayRoi(run, rois[w], g, st, rng, &nOps)
+				for k, st := range sts[lo:hi] {
+					replayRoi(run, rois[w], g, st, empty, lo+k, sink, rng, &nOps)
 				}
 			}
 			atomic.AddInt64(&nStates, int64(hi-lo))
@@ -884,6 +1245,18 @@ func checkC18(c *Ctx) int {
 			run.Sample(map[string]interface{}{"config": g.Name, "runs_xyzn": st.Runs, "canonical": st.Canon, "partition_expected": st.Part[0], "split_operand": st.Split[0].S, "split_expected_mask": st.Split[0].M, "roi_spans_zyx0x1": st.Spans})
 		}
 	}
+	// the partition answers of the real code, judged by TLC against the claims of GeometryPartition
+	tp := time.Now()
+	ps, pt, badParts := judgePartitions(c, run, cfgByName, sink.cases)
+	states += ps
+	trans += pt
+	run.Set("partition_answers_judged_by_tlc", len(sink.cases))
+	run.Set("partition_answers_breaking_a_claim", badParts)
+	run.Set("partition_requests_failed", sink.failed)
+	run.Set("partition_judging_s", since(tp))
+	if len(sink.cases) > 0 {
+		run.Sample(map[string]interface{}{"partition_answer_judged": sink.cases[len(sink.cases)/2]})
+	}
 	run.Set("states", states)
 	run.Set("transitions", trans)
 	run.Set("traces_validated_against_impl", nOps)
@@ -891,10 +1264,11 @@ func checkC18(c *Ctx) int {
 	run.Set("key_comparisons", nKey)
 	run.Set("configs", perCfg)
 	run.Set("exhaustive", true)
-	run.Set("rule", "run algebra / ROI: TLC enumerates EVERY presentation of every voxel set as non-overlapping runs on small lattices (incl. negative coordinates, adjacent and single-voxel runs, several rows in y and z) with specs/Geometry.tla, checks the set-level claims and prints per state the expected result of Normalize (exact runs), Partition (4 block sizes), Split (8 subsets), FitToBounds (12 boxes), Add (8 operands) as voxel sets, and for the ROI reading the stored spans and the members of a voxel query box; every state is pushed (runs in seeded order, operands additionally broken into adjacent runs) through the real dvid.RLEs functions, MarshalBinary/UnmarshalBinary/ReadRLEs/RLE.WriteTo, and through an roi instance (POST roi, GET roi, POST ptquery over the whole box, GET mask over the box and 3 seeded sub-boxes, roi.VoxelBoundsInside); traces_validated_against_impl = operations compared. keys / packed index: seeded int32 points + the boundary lattice {-2^31,-2^20,-1,0,1,2^20-1,2^31-1}^3 are written as constants, TLC (specs/GeometryKeys.tla) checks order isomorphism on all pairs and decoding and prints expected key bytes, ranks and packed fields, the real codecs are compared byte for byte and pairwise; decode(encode(c)) is evaluated on the real code for every |c| < 2^20 per axis. distinct_nontrivial = distinct (configuration, operation, non-empty state) + distinct points")
+	run.Set("rule", "run algebra / ROI: TLC enumerates EVERY presentation of every voxel set as non-overlapping runs on small lattices (incl. negative coordinates, adjacent and single-voxel runs, several rows in y and z) with specs/Geometry.tla, checks the set-level claims and prints per state the expected result of Normalize (exact runs), Partition (4 block sizes), Split (8 subsets), FitToBounds (12 boxes), Add (8 operands) as voxel sets, and for the ROI reading the stored spans and the members of a voxel query box; every state is pushed (runs in seeded order, operands additionally broken into adjacent runs) through the real dvid.RLEs functions, MarshalBinary/UnmarshalBinary/ReadRLEs/RLE.WriteTo, and through an roi instance (POST roi, GET roi, POST ptquery over the whole box, GET mask over the box and 3 seeded sub-boxes, roi.VoxelBoundsInside, GET info MinZ/MaxZ = Z extent of the spans; the same region re-posted with OVERLAPPING spans (Overlay: repeated last / inner blocks of every multi-block span; Inv_C18_RoiOverlap) must answer ptquery, mask and VoxelBoundsInside identically; DELETE roi on every 4th state must leave the empty region); ROI partition: the claims of specs/GeometryPartition.tla (subvolumes well formed, pairwise disjoint, covering every block of the region, ActiveBlocks = blocks of the region inside, sum = block count, TotalBlocks = box volume, voxel corners = block corners) are model-checked on the intended grid partition for every state and batch size 1..3 (Inv_C18_PartitionDesign), and every answer of GET partition?batchsize=1|2|3 (default and optimized=true, quick: alternating, thorough: both) is written as a constant and judged by TLC against the same claims (GeometryPartition_cases); traces_validated_against_impl = operations compared. keys / packed index: seeded int32 points + the boundary lattice {-2^31,-2^20,-1,0,1,2^20-1,2^31-1}^3 are written as constants, TLC (specs/GeometryKeys.tla) checks order isomorphism on all pairs and decoding and prints expected key bytes, ranks and packed fields, the real codecs are compared byte for byte and pairwise; decode(encode(c)) is evaluated on the real code for every |c| < 2^20 per axis. distinct_nontrivial = distinct (configuration, operation, non-empty state) + distinct points")
 	run.Assume = []string{
 		"Add is compared as a voxel set only (its result may contain overlapping runs; the returned count is not part of the property)",
-		"ROI span sets are non-overlapping (adjacent spans allowed)",
+		"GET roi is compared for non-overlapping span sets only (adjacent spans allowed); overlapping spans are judged by the queries",
+		"partition answers are judged by the claims only, not by equality with the intended grid partition",
 		"int32 key coordinates beyond the boundary lattice and the packed-index pairs are seeded samples, not exhaustive",
 	}
 	fmt.Printf("C18: keys %.1fs (%d comparisons); %d configurations, %d states replayed, %d operations compared; violations=%d; %.1fs\n",
